@@ -28,12 +28,17 @@ with the Go interpreter instruction by instruction on every run (channels `eval`
   * `vm_run_error_exact` — contents, under `Extends3` at the fault state;
   * `…_counterexample` — where the unconditional statement is false;
   * `defs_prefix` — nothing but the control state is rolled back;
-  * `VmErrorAtRestExact` — the full statement, with what is missing.
+  * `VmErrorAtRestExact` — the full statement, with what is missing;
+  * `vm_text_error_exact_generated` — `VmErrorAtRestExact` for class `err`, texts of the model
+    generator's grammar and states served by such texts: data / scope / address / set-aside
+    stacks EXACTLY those of entry, NO `Extends3` hypothesis (from C04's error-path contract,
+    Props/C04Err.lean).
 -/
 import ZygoVerif.Model.Control
 import ZygoVerif.Generated.Control
 import ZygoVerif.Generated.ErrDiscard
 import ZygoVerif.Proofs.ContainSusp
+import ZygoVerif.Props.C04Err
 namespace ZygoVerif.Control
 
 variable {D S A F : Type}
@@ -363,5 +368,41 @@ theorem twin (fuel : Nat) (es : List Expr) (s : St) (tr : List String) :
     runText fuel es { s with trace := tr } = runText fuel es s := by
   unfold runText
   rfl
+
+/-- **vm_text_error_exact_generated** — `vm_run_error_exact` with the frame hypothesis `Extends3`
+DISCHARGED for the outermost `Run` of generated code: a text of the model generator's grammar
+(`Bal.okLs`) that ends in an error, served by an interpreter in any state reached from the fresh
+one by value-returning and erroring texts of that grammar (`C04.ServedStateE`), with any fuel,
+leaves the data, scope, address and set-aside stacks EXACTLY those of entry — i.e. the
+interpreter at rest: `VmErrorAtRestExact` for class `err` on these texts and states — and the
+state is served again. By C04's `err_leaves_served`: the fault state satisfies `RunInv.FaultOK`
+(the base scope stack is underneath, the set-aside stacks are those of entry) by the error-path
+contract `C04.err_contract` of all thirteen functions of the VM's mutual block, and
+`Contain.restore_exact_vm` does the rest.
+
+Why `vm_run_error_exact_of_invariant` was not the route: its `hstep` asks the invariant to
+survive `exec f i` for EVERY instruction `i` in every state, whereas a typing of states
+(C04's annotation) speaks about the instruction FETCHED at the pc; and it asks it for every
+outcome of the re-entrant instructions, where the state after a failing nested `Run` is only
+known after the evaluator's own restore. C04 proves the loop lemma for the fetched instruction
+(`RunInv.main_loop_err`) and the error specifications function by function (`RunInv.errSpec`). -/
+theorem vm_text_error_exact_generated (fuel : Nat) (es : List Expr) (s s' : St) (v d : String) (tr : List String)
+    (alive : Bool) (hs : C04.ServedStateE s) (hok : Bal.okLs es = true)
+    (hr : runText fuel es s = (.done "err" v tr d, s', alive)) :
+    (s'.data = s.data ∧ s'.linear = s.linear ∧ s'.addr = s.addr ∧ s'.suspended = s.suspended) ∧
+    (s'.data = [] ∧ s'.linear = [some 0] ∧ s'.addr = [] ∧ s'.curfunc = mainFn ∧ curSize s' ≤ s'.pc) ∧
+    C04.ServedStateE s' := by
+  obtain ⟨_, hrest, hex⟩ := C04.err_leaves_served fuel es s s' v tr d alive (C04.servedStateE_served hs) hok hr
+  obtain ⟨r1, r2, r3, _, r5, r6⟩ := hrest
+  exact ⟨hex, ⟨r1, r2, r3, r5, r6⟩, C04.ServedStateE.err hs hok hr⟩
+
+/-- … and such an evaluation never ends in a host panic (C04 `no_host_panic`) -/
+theorem vm_text_no_panic_generated (fuel : Nat) (es : List Expr) (s s' : St) (v d : String) (tr : List String)
+    (alive : Bool) (hs : C04.ServedStateE s) (hok : Bal.okLs es = true) :
+    runText fuel es s ≠ (.done "panic" v tr d, s', alive) :=
+  C04.no_host_panic fuel es s s' v tr d alive (C04.servedStateE_served hs) hok
+
+/-- non-vacuity: the fresh interpreter is such a state -/
+example : C04.ServedStateE initSt := C04.ServedStateE.init
 
 end ZygoVerif.C05
